@@ -1,6 +1,10 @@
 package streamreader
 
-import "bytes"
+import (
+	"bytes"
+	"errors"
+	"io"
+)
 
 //go:generate mockgen -source reader.go -destination mocks/mocks.go -typed true
 
@@ -15,6 +19,7 @@ type Stream[T Request] interface {
 type reader[T Request] struct {
 	stream Stream[T]
 	buf    bytes.Buffer
+	err    error
 }
 
 func New[T Request](stream Stream[T]) *reader[T] {
@@ -24,13 +29,23 @@ func New[T Request](stream Stream[T]) *reader[T] {
 }
 
 func (r *reader[T]) Read(p []byte) (int, error) {
-	for len(p) > r.buf.Len() {
+	for r.err == nil && len(p) > r.buf.Len() {
 		resp, err := r.stream.Recv()
 		if err != nil {
+			// only io.EOF is the end of the stream; anything else (a cancelled or
+			// broken stream) must not pass for a complete upload
+			if !errors.Is(err, io.EOF) {
+				r.err = err
+			}
+
 			break
 		}
 
 		r.buf.Write(resp.GetChunk())
+	}
+
+	if r.err != nil {
+		return 0, r.err
 	}
 
 	return r.buf.Read(p)
